@@ -239,6 +239,28 @@ def check(chk):
     # a delayed control event of the turn that ends never reaches the devices of the next turn: stopping a mode clears its delays
     from sa.helpers import mode_stop_clears_delays
     mode_stop_clears_delays(chk, "PAIR-12")
+    # progress that lives on the device object (not in the player) goes when the mode unloads: a sequence shot forgets its half-finished
+    # sequences on every path of the unload, so the next player's run of the mode starts from nothing (shared with C07)
+    ss_ = repo.func("mpf/devices/sequence_shot.py", "SequenceShot.device_removed_from_mode")
+    chk.analysed(ss_)
+    scfg_ = ss_.cfg()
+    rs_ = [n.id for n, c in scfg_.calls_named("reset_all_sequences")]
+    w_ = scfg_.must_pass(scfg_.entry.id, rs_) if rs_ else [scfg_.entry.id]
+    chk.ob("PAIR-12", "SequenceShot: unloading the device drops its sequences in progress on every path (the next player starts from nothing)", w_ is None,
+           ss_.where(), construct=ss_.ident, text="sequences in progress survive unload")
+    # a timer mirrors its tick count into the current player's variable: every normal path of the `ticks` setter stores the device value and then
+    # the player's copy - also when the new value equals what the device object still holds from the previous player
+    tk = [m for m in repo.cls("mpf/devices/timer.py", "Timer").node.body if isinstance(m, ast.FunctionDef) and m.name == "ticks"
+          and any(src(d) == "ticks.setter" for d in m.decorator_list)]
+    chk.need(len(tk) == 1, "PAIR-12", "Timer.ticks has a setter", repo.func("mpf/devices/timer.py", "Timer.start"))
+    from sa.cfg import CFG
+    tcfg = CFG(tk[0])
+    st_dev = [n.id for n in tcfg.nodes if n.kind == "stmt" and isinstance(n.ast, ast.Assign) and src(n.ast.targets[0]) == "self._ticks" and src(n.ast.value) == "value"]
+    st_pl = [n.id for n in tcfg.nodes if n.kind == "stmt" and isinstance(n.ast, ast.Assign) and src(n.ast.targets[0]).startswith("self.player[") and src(n.ast.value) == "value"]
+    ok = bool(st_dev) and bool(st_pl) and tcfg.must_pass(tcfg.entry.id, st_dev) is None and tcfg.must_pass(tcfg.entry.id, st_pl) is None
+    chk.ob("PAIR-12", "Timer.ticks = v stores v on the device and in the current player's tick variable on every path (no shortcut for an unchanged "
+           "device value: the device object outlives the player)", ok, "mpf/devices/timer.py:%d" % tk[0].lineno,
+           construct="mpf/devices/timer.py::Timer.ticks[setter]", text="tick mirror per assignment")
 
     # ------------------------------------------------------------ FLOW-4
     n_f = 0
@@ -752,6 +774,8 @@ def battery():
     from sa.battery import M
     LBF = "mpf/devices/logic_blocks.py"
     return [
+        M("timer tick mirror skipped for an unchanged device value", "mpf/devices/timer.py", "    def ticks(self, value):\n        self._ticks = value\n", "    def ticks(self, value):\n        if value == self._ticks:\n            return\n\n        self._ticks = value\n", "PAIR-12"),
+        M("sequence shot keeps its half-finished sequences on unload", "mpf/devices/sequence_shot.py", "        self._remove_handlers()\n        self.reset_all_sequences()\n        self.delay.clear()", "        self._remove_handlers()\n        self.delay.clear()", "PAIR-12"),
         M("empty rotation leaves the group marked as rotating (F25 reverted)", "mpf/devices/achievement_group.py", "            self._rotation_in_progress = False\n            return\n", "            return\n", "BRACKET-0"),
         M("disable wipes the hit window's exit delay", "mpf/devices/logic_blocks.py", "        self.post_update_event()\n        self.delay.remove(\"timeout\")\n", "        self.post_update_event()\n        self.delay.clear()\n", "PAIR-12"),
         M("player listed only after player_adding has cleared", "mpf/modes/game/code/game.py", "        self.player_list.append(player)\n", "", "NUM-11"),
